@@ -99,6 +99,29 @@ theorem C14_init_order (table : List Load) (n : Nat) (L : Load) (sh : Sh α) (ho
   rw [h2, hown]
   simpa using (mainTrace_order L).sublist h1.sublist
 
+/-- **References resolved, or no constructor at all.**  If the reference resolution of any file of the
+attempt (the main file or a file imported directly or indirectly) fails (`Load.unres`: a scope-provider
+call raises — unknown name, exception of the provider — or a reference stays postponed for good), the
+attempt fails and *no* constructor and *no* object processor of any file is called — whatever else
+happens (other faults, nested loads): `__init__` only ever runs when every reference of every file of
+the load is resolved.  (`L.immut = false`: a main model of an immutable type has no references.) -/
+theorem C14_no_init_when_unresolved (table : List Load) (n : Nat) (L : Load) (sh : Sh α) (hown : sh.own = [])
+    (hconv : L.immut = false) (hun : true ∈ L.unres) :
+    (runF table (n + 1) L sh).2 = false ∧
+      ∀ e, e ∈ (runF table (n + 1) L sh).1.own → e.kind ≠ 3 ∧ e.kind ≠ 4 := by
+  have henv := tableEnv_own (α := α) (runF table n) table
+  have h0 : ∀ K, OwnP (QK K (fun _ => False)) sh := by intro K e he; simp [hown] at he
+  have h3 := node_main_unres (K := 3) (R := fun _ => False) henv (by decide) (by decide) (by decide) (by decide)
+    L sh hconv hun (h0 3)
+  have h4 := node_main_unres (K := 4) (R := fun _ => False) henv (by decide) (by decide) (by decide) (by decide)
+    L sh hconv hun (h0 4)
+  refine ⟨?_, fun e he => ⟨fun hk => h3.1 e he hk, fun hk => h4.1 e he hk⟩⟩
+  simp only [runF, runMain]
+  have := h3.2
+  cases hr : (node (tableEnv (runF table n) table) true L [] sh).2 with
+  | ok _ => rw [hr] at this; simp [isOk] at this
+  | error _ => rfl
+
 /-- **Object processors see the classes as they were before loading (general form).** Whatever the
 load tree, the faults and the nesting, and whether the attempt succeeds or fails: every object
 processor call of the attempt (event kind 4) carries the instrumentation snapshot of the state `sh`
@@ -112,7 +135,7 @@ theorem C14_procs_see_start (table : List Load) (n : Nat) (L : Load) (sh : Sh α
   cases n with
   | zero => intro e he; simp [runF, hown] at he
   | succ n =>
-    have h0 : OwnP (QK (SnapAt sh)) sh := by intro e he; simp [hown] at he
+    have h0 : OwnP (QK 4 (SnapAt sh)) sh := by intro e he; simp [hown] at he
     have := runMain_procs (runF_env_frame table n) (tableEnv_own (runF table n) table) L sh hg h0
     intro e he h4
     exact this e he h4
@@ -256,6 +279,16 @@ example : (runF [mainOk, childBad] 3 mainOk clean).1.own.filter (·.kind == 4) =
     [⟨4, 1, 10, [(0, false, false, 0)]⟩, ⟨4, 2, 21, [(0, false, false, 0)]⟩, ⟨4, 2, 20, [(0, false, false, 0)]⟩] := by decide
 example : (runF [mainOk, childBad] 3 mainOk clean).1.own.filter (·.kind == 3) =
     [⟨3, 1, 10, [(1, true, true, 2)]⟩, ⟨3, 2, 21, [(0, false, false, 1)]⟩, ⟨3, 2, 20, [(0, false, false, 0)]⟩] := by decide
+/-- `C14_no_init_when_unresolved`: the imported file holds an unresolvable reference; the hypotheses hold
+and (contrast) without it the same tree runs three constructors -/
+private def childUnres : Load :=
+  .mk 2 [0] true (.obj (some 0) (h0 20) [.obj (some 0) (h0 21) []]) none [] [h0 22] true [h0 21, h0 20] (h0 20)
+private def mainUnres : Load :=
+  .mk 1 [0] true (.obj (some 0) (h0 10) [.conv (h0 11)]) none [childUnres] [] false [h0 10] (h0 10)
+example : mainUnres.immut = false ∧ true ∈ mainUnres.unres := by decide
+/-- … or its scope provider raises (`childBad`) -/
+example : mainBad.immut = false ∧ true ∈ mainBad.unres := by decide
+example : (runF [] 1 mainUnres clean).1.own.map Ev.key = [(0, 1, 11), (5, 2, 20), (2, 2, 22)] := by decide
 /-- `Good` and `own = []` of `C14_procs_see_start` hold for the clean state -/
 example : Good clean ∧ clean.own = [] :=
   ⟨⟨fun c => ⟨c, 0, rfl⟩, List.nodup_nil, fun p hp => by simp [clean] at hp⟩, rfl⟩
